@@ -125,7 +125,7 @@ fn feed_and_drain(sub: EphemeralStreamSubscription<String>, tx: &broadcast::Send
 
 pub fn run_c16(mut rep: Report) -> i32 {
     let thorough = rep.thorough();
-    rep.rule = "part a: a valid wrapped message (from the real publisher) and every single-bit flip (bits 0 and 7; all 8 thorough) of its encoding, every field substitution (version, author key, timestamp +-1, logical +-1, body edit) with the original signature, and the same substitutions re-signed by a foreign key while claiming the original author, injected one by one into a real subscription: only messages whose signature verifies under the reported author over (version, timestamp, logical, body) may be yielded; part b: every sequence of wall-clock readings of length <= 4 (5) over {t-1, t, t+1}, one publish per reading on the real publisher: timestamps strictly increase and encodings are pairwise distinct; non-trivial = tampered message actually offered (a) / sequence containing a non-advancing clock (b)".into();
+    rep.rule = "part a: a valid wrapped message (from the real publisher) and every single-bit flip (bits 0 and 7; all 8 thorough) of its encoding, every field substitution (version, author key, timestamp +-1, logical +-1, body edit) with the original signature, and the same substitutions re-signed by a foreign key while claiming the original author, injected one by one into a real subscription: only messages whose signature verifies under the reported author over (version, timestamp, logical, body) may be yielded; part b: every sequence of wall-clock readings of length <= 4 (5) over {t-1, t, t+1}, one publish per reading on the real publisher: timestamps strictly increase and encodings are pairwise distinct; part c: two publishes of one publisher in flight on two threads (same body, clock standing still), every interleaving of their tokio synchronisation operations within 2 (3) preemptions: the two messages differ; non-trivial = tampered message actually offered (a) / sequence containing a non-advancing clock (b) / schedule with a preemption (c)".into();
     let rig = match rig() {
         Ok(r) => r,
         Err(e) => {
@@ -271,6 +271,83 @@ pub fn run_c16(mut rep: Report) -> i32 {
             }
         }
     }
+    // ---- part c: two publishes of one publisher in flight at the same time (two threads on
+    // clones of the publisher), same body, wall clock standing still: every interleaving of their
+    // schedule points (tokio synchronisation operations, seam S2) within the preemption bound
+    let bound = if thorough { 3 } else { 2 };
+    let clock = 9_000_000_000u64;
+    for b in 0..=bound {
+        let before = rep.violation_count();
+        let mut outs = vec![];
+        let stats = explorer::dfs(
+            &explorer::DfsCfg { max_dev: b, wall: std::time::Duration::from_secs(120), ..Default::default() },
+            |ch| {
+                let results: Arc<std::sync::Mutex<Vec<(usize, Result<Vec<u8>, String>)>>> = Arc::default();
+                let bodies: Vec<(String, Box<dyn FnOnce(explorer::thread::ThreadCtx) + Send>)> = (0..2usize)
+                    .map(|i| {
+                        let publisher = rig.publisher.clone();
+                        let handle = rig.rt.handle().clone();
+                        let results = results.clone();
+                        (
+                            format!("publisher{i}"),
+                            Box::new(move |cx: explorer::thread::ThreadCtx| {
+                                let _g = handle.enter();
+                                MockClock::set_system_time(std::time::Duration::from_micros(clock));
+                                let _ = p2panda::streams::verif::take_published();
+                                let r = cx.block_on(publisher.publish("same body".to_string()));
+                                let bytes = p2panda::streams::verif::take_published().pop();
+                                let r = match (r, bytes) {
+                                    (Ok(()), Some(b)) => Ok(b),
+                                    (Err(e), _) => Err(format!("publish failed: {e}")),
+                                    (Ok(()), None) => Err("publish did not reach the tap".into()),
+                                };
+                                results.lock().unwrap().push((i, r));
+                            }) as Box<dyn FnOnce(explorer::thread::ThreadCtx) + Send>,
+                        )
+                    })
+                    .collect();
+                let run = explorer::thread::run_threads_ext(ch, 5_000, Some(std::time::Duration::from_secs(20)), bodies);
+                let r = results.lock().unwrap().clone();
+                (run, r)
+            },
+            |ch, r| outs.push((ch.vector(), ch.deviations(), r)),
+        );
+        rep.absorb_dfs(&format!("concurrent-publishes/preemptions<={b}"), &stats, b);
+        for (vector, devs, (run, results)) in outs {
+            if devs < b {
+                continue;
+            }
+            rep.eval();
+            rep.state(&("c", &run.trace));
+            if devs > 0 {
+                rep.nontrivial(&("c", &run.trace));
+            }
+            let replay = json!({"part": "c", "vector": vector, "schedule": run.trace});
+            if run.end != explorer::thread::ThreadEnd::Completed {
+                rep.violation("concurrent-publishes/did-not-complete", format!("{:?}; schedule {:?}", run.end, run.trace), replay);
+                continue;
+            }
+            let mut bytes = vec![];
+            for (i, r) in &results {
+                match r {
+                    Ok(b) => bytes.push(b.clone()),
+                    Err(e) => rep.machinery_error(format!("part c publisher {i}: {e}")),
+                }
+            }
+            rep.outcome(&("c", bytes.len(), bytes.len() == 2 && bytes[0] == bytes[1]));
+            if bytes.len() == 2 && bytes[0] == bytes[1] {
+                rep.violation(
+                    "publish-not-unique/concurrent-publishes-byte-identical",
+                    format!("two publishes of one publisher in flight at the same time (same body, wall clock standing still) produced byte-identical messages; schedule {:?}", run.trace),
+                    replay,
+                );
+            }
+        }
+        if rep.violation_count() > before {
+            break;
+        }
+    }
+    rep.assume("part c: the gossip actor that receives the published bytes is outside the scheduler; the publishes complete without waiting for it (the channel is never full)");
     rep.assume("the gossip overlay itself (iroh) is not involved: bytes are injected into the real subscription's channel and published bytes are observed at the publisher, before they enter the overlay");
     rep.finish()
 }
